@@ -208,6 +208,9 @@ func (cc *ClientConn) readHandshakeResponse() (HandshakeResponseInfo, error) {
 		authResponse, pos, ok = mysql.ReadBytesCopy(data, pos, int(l))
 	} else {
 		authResponse, pos, ok = mysql.ReadNullByte(data, pos)
+		// ReadNullByte returns a slice of the packet buffer, which goes back to
+		// the pool when this function returns: keep a copy
+		authResponse = append([]byte(nil), authResponse...)
 	}
 	if !ok {
 		return info, fmt.Errorf("readHandshakeResponse: can't read auth-response")
